@@ -188,6 +188,27 @@ Qed.
 Lemma rstrip_app_space s x : is_space x = true -> rstrip (s ++ [x]) = rstrip s.
 Proof. intros H. unfold rstrip. rewrite rev_app_distr. simpl. rewrite H. reflexivity. Qed.
 
+(* s.strip(c) for a one-character argument (read_csv strips '\n' only) *)
+Fixpoint lstrip_c (c : N) (s : str) : str :=
+  match s with
+  | [] => []
+  | x :: s' => if N.eqb x c then lstrip_c c s' else s
+  end.
+Definition rstrip_c (c : N) (s : str) : str := rev (lstrip_c c (rev s)).
+Definition strip_c (c : N) (s : str) : str := rstrip_c c (lstrip_c c s).
+
+Lemma lstrip_c_other c x s : x <> c -> lstrip_c c (x :: s) = x :: s.
+Proof. intros H. simpl. destruct (N.eqb_spec x c); [contradiction | reflexivity]. Qed.
+
+Lemma rstrip_c_app_other c s x : x <> c -> rstrip_c c (s ++ [x]) = s ++ [x].
+Proof.
+  intros H. unfold rstrip_c. rewrite rev_app_distr. simpl.
+  destruct (N.eqb_spec x c); [contradiction|]. simpl. rewrite rev_involutive. reflexivity.
+Qed.
+
+Lemma rstrip_c_app_same c s : rstrip_c c (s ++ [c]) = rstrip_c c s.
+Proof. unfold rstrip_c. rewrite rev_app_distr. simpl. rewrite N.eqb_refl. reflexivity. Qed.
+
 (* ---------------------------------------------------------------- str(n) and int(s) *)
 
 Fixpoint uint_str (u : uint) : str :=
